@@ -23,7 +23,7 @@ PROP["jobs"].append({"harness": "h_srcack", "comp": "srcack", "driver": "srcack"
 PROP["lean_modules"].append("ConduitModel.Props.C02")
 
 META = {
-    "text": 'Lean 4 theorems: the multiAckNacker releases exactly the in-order prefix 0..released-1, each position once, released monotone, for every vote sequence (C04_ma_release_prefix/_next); the tainted loop hands out sub-batches left to right covering the batch exactly once (C04_groups_in_read_order, _strictly_advance). Whole-pass ack order is decided by the C04 monitor (acks = exact prefix of records read; overlapping Source.Ack calls flagged) on every implementation trace incl. real concurrent fan-out with a slow source, and by equality with the model.',
-    "note": 'PARTIAL: the composition of these leaf theorems with the task recursion of Worker.doTaskAttempt/doNextTask (whole-pass statement) is validated by equality of event logs against the executable Lean model and by the Lean-defined trace monitor on every implementation trace (serial fan-out orders, real concurrent fan-out, several sources into one shared sink), not proved. v1 (default engine) part: Props/*Stream when merged. Trusted: Lean kernel, factgen, harness/fakes, Go runtime.',
-    "technique": 'Lean 4 invariant proofs (release-prefix, partition law) + model/implementation trace equality + Lean-defined trace monitor',
+    "text": "Lean 4 theorems. v2: the WHOLE-PASS theorem C04_v2_pass_acks_prefix (every task tree incl. nested fan-out and split runs, every fuel, plugin script, DLQ config, fan-out order and outcome: the positions acked to the source are a prefix of the batch's positions; equal to the batch when the pass returns ok), built on C04_ma_release_prefix/_next (multiAckNacker releases exactly the in-order prefix for every vote order) and the loop partition law (C04_groups_in_read_order). Connector: C02_delivered_fifo/_prefix (deferred-ack queue delivers in order, gap-free unless an ack was dropped, then nothing later is delivered). v1 (default engine): the product model Flow x Ack of pkg/lifecycle/stream is proved to satisfy the property's monitor for every topology and every event list (C04_v1_ack_sequence_is_prefix, C04_v1_fail_latch); the real node graph is tied by trace acceptance (`pipe`: every recorded trace must be a behaviour of the model; internal events are reconstructed and each is checked by the model's step). Ties: funnel event-log equality + monitors on concurrent / multi-source / slow-source runs, arbiter equality, pipe and srcack trace acceptance.",
+    "note": 'Proved about the models (v2 pass: one pass, multi-batch loop by correspondence). Trusted: correspondence sampling, fakes for plugins, Go runtime/channel semantics, semaphore.Simple as FIFO ticket lock (v1).',
+    "technique": 'Lean 4 whole-pass Hoare-style proof (v2), event-system invariants (v1, connector) + trace equality / acceptance against the real code',
 }
